@@ -6,7 +6,7 @@ import re
 class Fn:
     __slots__ = ("tu", "d", "id", "qname", "name", "targs", "sig", "file", "line",
                  "record", "kind", "params", "blocks", "entry", "exit", "vars",
-                 "events", "ev_block", "key", "lambda_", "outer", "_shape", "variant")
+                 "events", "ev_block", "key", "lambda_", "outer", "_shape", "variant", "unknown_helper")
 
     def __init__(self, tu, d):
         self.tu = tu
@@ -38,6 +38,7 @@ class Fn:
         self.key = "%s<%s>%s" % (self.qname, self.targs, self.sig)
         self._shape = None
         self.variant = ""
+        self.unknown_helper = False
 
     @property
     def shape(self):
@@ -105,11 +106,13 @@ class FactBase:
             for fn in tu.fns.values():
                 yield fn
 
-    def find(self, qname_re=None, name=None, pred=None, dedup=True):
+    def find(self, qname_re=None, name=None, pred=None, dedup=True, hidden=False):
         seen = {}
         out = []
         for tu in self.tus:
             for fn in tu.find(qname_re, name, pred):
+                if fn.unknown_helper and not hidden:
+                    continue        # an extracted helper lives inside its callers (core.mark_unknown_helpers)
                 if dedup:
                     shapes = seen.setdefault(fn.key, set())
                     if shapes and (not tu.debug or fn.shape in shapes):
